@@ -14,13 +14,13 @@ CLAIMED = {
    "as C01; the Weekday classes and the weekday() factory are covered by the correspondence only", T_TIE),
  "C03": ("5 (C03)",
    "Props/C03.v: after n executions at arbitrary polling instants a cyclic job is planned for s+(n+1)T (s+nT with delay=False), for every s, T and history; once(datetime/timedelta/time/weekday) are exact resp. the next occurrence, all with max_attempts 1. Tied by the cyclic correspondence stream (irregular polls, polls on an occurrence, gaps of many intervals, once() of all four kinds).",
-   N_SEQ + "; once() dispatch (JOB_TYPE_MAPPING) is a model function tied by correspondence only", T_TIE),
+   N_SEQ + "; translated: once() of both front ends and JOB_TYPE_MAPPING (tie_thr_once, tie_aio_once), BaseJob, JobTimer", T_TIE),
  "C04": ("3.4, 5 (C04)",
    "Props/C04.v: on every reachable state and for every iteration order, exec_jobs computes one priority per registered job from now-due, runs exactly the jobs of positive priority (default function: positive iff weight>0 and due<=now, overdue 0 included), each once, returns that count; a poll with nothing due changes no job; force_exec_all runs every registered job once. Tied by correspondence over mixed populations with polls at due, due-1us, due+0, and by re-translation of prioritization.py.",
-   N_SEQ + "; IEEE rounding of the priority value is modelled over exact rationals (sign compared exactly)", T_TIE),
+   N_SEQ + "; IEEE rounding of the priority value is modelled over exact rationals (sign compared exactly); translated: exec_jobs selection (tie_exec_select) and post-run loop (tie_post_loop), the worker hand-over is recognised by template", T_TIE),
  "C05": ("3.4, 5 (C05)",
    "Props/C05.v, for an arbitrary priority assignment: count = min(max_exec, #positive); top-k (no waiting job with positive priority beats a chosen one); never a priority <= 0; non-increasing run order; the priority function's call log (once per registered job with now-due, max_exec, job count); exact-arithmetic laws of the built-in functions. Tied by correspondence with scripted user priority tables (negatives, zeros, ties) and the built-ins, all max_exec values; re-translation of prioritization.py.",
-   N_SEQ + "; float rounding of the built-ins modelled not verified; set iteration order is read from the implementation", T_TIE),
+   N_SEQ + "; float rounding of the built-ins modelled not verified; set iteration order is read from the implementation; translated: both built-in priority functions and the selection part of exec_jobs (batch = select_batch (sort_desc (collect_prios)))", T_TIE),
  "C06": ("5 (C06)",
    "Props/C06.v: invariant proved by induction over ALL operation histories (scheduling calls of six kinds, deletions, queries, normal and forced polls, failing callbacks, re-entrant callbacks): attempts <= max_attempts for every job object ever created, every registered job has attempts left (so the call performing the n-th invocation removes it), ids that left the set never reappear, once() is max_attempts=1. Tied by the limits/general correspondence streams.",
    N_SEQ + "; asyncio front end: C17; translated: BaseJob (__init__, _calc_next_exec, has_attempts_remaining, _exec) and JobTimer, the Scheduler classes are hand-modelled", T_TIE),
@@ -38,10 +38,10 @@ CLAIMED = {
    N_SEQ + "; Python try/except and logging are modelled (events; Job._exec of both front ends is translated with the callback's outcome as a parameter), asyncio front end in C17/C18", T_TIE),
  "C11": ("5 (C11)",
    "Props/C11.v: exact effect of every operation on the job set (schedule adds the fresh id iff the job can run; a rejected call changes nothing; delete_job removes or raises and changes nothing; delete_jobs removes exactly the selection and returns its size; queries change nothing), members are exactly the jobs that can still run, and an id that left the set never reappears (induction over histories). Tied by the registry stream (all six scheduling calls valid/invalid, deletes of registered/deleted/retired/foreign jobs, queries, polls; every returned set is cleared).",
-   N_SEQ + "; asyncio front end: C18; translated: select_jobs_by_tag", T_TIE),
+   N_SEQ + "; asyncio front end: C18; translated: select_jobs_by_tag, delete_job/delete_jobs/get_jobs/jobs of the threading Scheduler (tie_reg_*), post-run retire loop", T_TIE),
  "C12": ("5 (C12)",
    "Props/C12.v: tag_match is subset (any_tag false) / non-empty intersection (true); get_jobs returns and delete_jobs removes exactly the matching registered jobs, None/empty = all; tags given to once() are kept on every timing path. Tied by the registry stream with once() tags passed as set, frozenset, list, tuple, generator, dict keys and None.",
-   N_SEQ + "; Python set operators modelled by duplicate-free lists; translated: select_jobs_by_tag", T_TIE),
+   N_SEQ + "; Python set operators modelled by duplicate-free lists; translated: select_jobs_by_tag and the registry operations of the threading Scheduler", T_TIE),
  "C13": ("5 (C13)",
    "Props/C13.v: creation succeeds only with uniform awareness of every timing entry, start and stop; any mixed value is rejected by the call itself, always with SchedulerError (the model's datetime operations do return TypeError on mixing); the constructor rejects foreign-timezone jobs; no operation on a reachable state ever raises TypeError; offset invariance: same recurring instants + same reference instant give the same due instants at creation and after every rescheduling (with/without skip_missing). Tied by the awareness stream (random naive/aware assignments to scheduler, entries, start, stop, all calls and the constructor).",
    N_SEQ + "; typeguard acceptance of timing types is an oracle; translated: every check of BaseJob.__init__", T_TIE),
@@ -56,7 +56,7 @@ CLAIMED = {
    "as C14; deadlock = no enabled thread under the cooperative scheduler", T_SEQ),
  "C16": ("3.5, 5 (C16)",
    "Props/C16.v over the worker-pool model: for every worker count and every interleaving of the workers each selected job is in exactly one of queue/running/done, at most m run at once, no job twice or overlapping itself, and when all workers have exited every job has been run exactly once; with n_threads=0 all can overlap; the resulting attempts/failures do not depend on the order (= sequential execution). Tied by DST runs of the real code with n_threads in {0,1,2,3,5} against batches of 0-6 jobs: callbacks logged start/finish, maximum overlap, completion before return, final state vs the model.",
-   "as C14; true simultaneity is runtime (observed under cooperative scheduling)", T_SEQ),
+   "as C14; true simultaneity is runtime (observed under cooperative scheduling); the queue/worker hand-over of __exec_jobs and _exec_job_worker are recognised by exact source templates whose meaning is the worker-pool model (any edit there is reported as a lost tie)", T_TIE),
  "C17": ("3.6, 5 (C17)",
    "Props/C17.v over the discrete-event model of the asyncio scheduler (Model/Aio.v): the supervisor resumes at max(reference, due) -- never early, no further delay; the coroutine starts at that instant with the scheduled arguments; on completion the job is counted and rescheduled by the SAME job_cycle function the C01-C09 theorems are about, with the completion instant as reference; resuming one job's task touches no other job's record; the state invariant holds after every operation and any amount of virtual time. Tied by running the real asyncio scheduler on a virtual-time event loop (integer-microsecond clock, datetime.now derived from it) against the extracted model: all job types, batching, skip_missing, stop, limits, failing coroutines, durations 0/shorter/equal/longer than the period.",
    "Coq kernel; extraction + driver; the asyncio event loop is modelled (discrete events), not verified; same-instant ordering between different jobs is not compared; wall-clock effects out of scope", T_SEQ),
@@ -65,7 +65,7 @@ CLAIMED = {
    "as C17; 'no task ends with an unhandled exception' and 'constructor needs a loop' are runtime observations on every history, not theorems", T_SEQ),
  "C19": ("5 (C19)",
    "Props/C19.v: jobs own their arguments/keyword mapping/tags as values (abstract spec); creation stores exactly what was given, no operation changes a job's configuration, every invocation passes exactly those values. That the implementation refines this (insulation from the caller's later mutations) is checked by the correspondence: the harness mutates the passed dict, the passed tag set and the set returned by .tags after every scheduling call.",
-   N_SEQ + "; dict.copy()/set.copy() modelled as value ownership", T_SEQ),
+   N_SEQ + "; dict.copy()/set.copy() modelled as value ownership; translated: the hand-over of handle/args/kwargs/tags from once() to __schedule", T_TIE),
 }
 def main():
     m = json.load(open(os.path.join(V, "MANIFEST.json")))
